@@ -184,6 +184,31 @@ func mutateBytes(r *Rng, b []byte) []byte {
 	return out
 }
 
+// c02Reuse: a Msg value that is used for a second Unpack holds exactly what a fresh Msg would hold: nothing of the
+// first input survives (sections, counts, OPT), whether the second input is a full message, a bare header or damaged.
+func c02Reuse(c *Ctx, first, second []byte) {
+	in := "first=" + hx(first) + " second=" + hx(second)
+	out := guard(func() string {
+		var m, f dns.Msg
+		_ = m.Unpack(first)
+		e2 := m.Unpack(second)
+		e3 := f.Unpack(second)
+		if (e2 == nil) != (e3 == nil) {
+			return fmt.Sprintf("reused: err=%v fresh: err=%v", e2, e3)
+		}
+		if e2 != nil {
+			return "ok"
+		}
+		if m.String() != f.String() || m.Len() != f.Len() || len(m.Question) != len(f.Question) || len(m.Answer) != len(f.Answer) ||
+			len(m.Ns) != len(f.Ns) || len(m.Extra) != len(f.Extra) {
+			return fmt.Sprintf("reused Msg differs from a fresh one: %d/%d/%d/%d records, Len %d; fresh %d/%d/%d/%d, Len %d",
+				len(m.Question), len(m.Answer), len(m.Ns), len(m.Extra), m.Len(), len(f.Question), len(f.Answer), len(f.Ns), len(f.Extra), f.Len())
+		}
+		return "ok"
+	})
+	c.Pred("msg-reuse", "reused-msg-equals-fresh", in, out == "ok", out, "ok", len(second) >= 12)
+}
+
 func runC02(c *Ctx) {
 	r := c.R
 	c.Res.Rule = "byte strings: truncations at every offset and bit/byte mutations of generated valid messages, pointer graphs (self, forward, mutual, long chains), lying counts and RDLENGTHs, random bytes; non-trivial = longer than a header; distinct by content"
@@ -191,6 +216,7 @@ func runC02(c *Ctx) {
 	types := t.wireTypes()
 	// 1. valid messages: every truncation point (of small ones), random mutations
 	n := c.Scale(1500, 40000)
+	var prevMsg []byte
 	for i := 0; i < n; i++ {
 		g := genMsg(r, msgOpts{mode: r.Intn(3), pool: r.Chance(50), maxAn: 3, maxNs: 2, maxEx: 2, optPct: 30})
 		m, err := unpackGen(g)
@@ -212,7 +238,22 @@ func runC02(c *Ctx) {
 				x = mutateBytes(r, x)
 			}
 			c02Msg(c, "mutations", x, i%16 == 0 && k == 0)
+			if k == 0 {
+				c02Reuse(c, w, x)
+			}
 		}
+		// the same Msg value again: a bare header, the header with the counts kept, a cut in the middle, another message
+		hdr := append([]byte{}, w[:12]...)
+		c02Reuse(c, w, hdr)
+		for k := 4; k < 12; k++ {
+			hdr[k] = 0
+		}
+		c02Reuse(c, w, hdr)
+		c02Reuse(c, w, w[:12+r.Intn(len(w)-11)])
+		if prevMsg != nil {
+			c02Reuse(c, prevMsg, w)
+		}
+		prevMsg = w
 	}
 	// 2. every type: RDATA truncated / RDLENGTH lying / mutated
 	for k := 0; k < c.Scale(15, 400); k++ {
@@ -384,5 +425,8 @@ func runC02(c *Ctx) {
 		hdr[6], hdr[7] = byte(cnt>>8), byte(cnt)
 		c02Msg(c, "max-expansion", append(hdr, body...), true)
 	}
+	// option and parameter value decoders on well-formed, swept and damaged RDATA, against the Lean value codecs: what is
+	// accepted, what is decoded (nothing from outside the option), no panic
+	optStream(c, c.Scale(300, 6000))
 	_ = strings.Join
 }
